@@ -76,7 +76,6 @@ pub static HISTORIES: [std::sync::atomic::AtomicU64; 2] = [const { std::sync::at
 pub fn warmup(key: u64) {
 	use crate::gen::{simple_model, Pattern};
 	use peppi::game::Game as _;
-	use std::io::Cursor;
 	static OFF: std::sync::OnceLock<bool> = std::sync::OnceLock::new();
 	if key % 16 != 0 || *OFF.get_or_init(|| std::env::var_os("PV_NO_WARMUP").is_some()) {
 		return;
@@ -96,7 +95,7 @@ pub fn warmup(key: u64) {
 	let _ = crate::rt::guard(|| -> Result<(), String> {
 		use peppi::io::slippi::de;
 		let o = crate::rt::slp_opts(false, true);
-		let g = peppi::io::slippi::read(Cursor::new(&bytes[..]), Some(&o)).map_err(|e| e.to_string())?;
+		let g = peppi::io::slippi::read(&mut br(&bytes[..]), Some(&o)).map_err(|e| e.to_string())?;
 		if g.frames.len() > 0 {
 			let _ = g.frame(0);
 			let _ = g.frames.rollbacks(peppi::frame::Rollbacks::ExceptLast);
@@ -105,16 +104,16 @@ pub fn warmup(key: u64) {
 		let _ = serde_json::to_string(&g.end);
 		let mut w = Vec::new();
 		let _ = peppi::io::slippi::write(&mut w, &g);
-		let _ = peppi::io::slippi::read(Cursor::new(&bytes[..]), Some(&crate::rt::slp_opts(true, false)));
+		let _ = peppi::io::slippi::read(&mut br(&bytes[..]), Some(&crate::rt::slp_opts(true, false)));
 		let version = g.start.slippi.version;
 		let occ = peppi::game::port_occupancy(&g.start);
 		let mut p = Vec::new();
 		let _ = peppi::io::peppi::write(&mut p, g, None);
-		if let Ok(g2) = peppi::io::peppi::read(Cursor::new(&p[..]), None) {
+		if let Ok(g2) = peppi::io::peppi::read(&mut br(&p[..]), None) {
 			let _ = g2.frames.into_struct_array(version, &occ);
 		}
 		// the incremental API with a row view, and a read that fails half-way
-		let mut r = Cursor::new(&bytes[..]);
+		let mut r = br(&bytes[..]);
 		let size = de::parse_header(&mut r, None).map_err(|e| e.to_string())? as usize;
 		let mut st = de::parse_start(&mut r, None).map_err(|e| e.to_string())?;
 		while st.bytes_read() < size {
@@ -125,13 +124,19 @@ pub fn warmup(key: u64) {
 		if st.frames().len() > 1 {
 			let _ = st.frame(0);
 		}
-		let _ = peppi::io::slippi::read(Cursor::new(&bytes[..bytes.len() * 2 / 3]), None);
+		let _ = peppi::io::slippi::read(&mut br(&bytes[..bytes.len() * 2 / 3]), None);
 		Ok(())
 	});
 	// an accepted name / version string, then the calls that are supposed to fail
 	let _ = crate::rt::guard(|| peppi::game::shift_jis::MeleeString::try_from(&[0x82u8, 0x65, 0x82, 0x8f, 0x00][..]));
 	let _ = format!("{}.{}.{}", v.0, v.1, v.2).parse::<peppi::io::slippi::Version>();
 	error_paths(&m, &bytes, h);
+}
+
+/// In-memory reader with a read-call budget (a reader that spins on a truncated input must not hang the
+/// predecessor workload: the spin ends in an error, which is ignored here and reported by C06/C07).
+fn br(b: &[u8]) -> crate::readers::SchedReader<'_> {
+	crate::readers::SchedReader::new(b, crate::readers::Schedule::Full)
 }
 
 /// `Write` sink that fails once `left` bytes have been accepted (full disk, closed pipe).
@@ -157,13 +162,12 @@ impl std::io::Write for FailingSink {
 /// sink that fails part-way, a `.slpp` cut inside frames.arrow. Whatever they leave behind must not
 /// leak into the next call.
 fn error_paths(m: &ModelGame, bytes: &[u8], h: u64) {
-	use std::io::Cursor;
 	let cut_in_start = (15 + 2 + 3 * m.table().len() + 1 + ((h >> 24) as usize % 300)).min(bytes.len());
 	let offs = m.raw().event_offsets();
 	let cut_in_frame = (offs.get(offs.len() / 2).copied().unwrap_or(bytes.len() / 2) + 1 + ((h >> 32) as usize % 7)).min(bytes.len());
 	let opts = crate::rt::slp_opts((h >> 40) & 1 == 1, (h >> 41) & 1 == 1);
 	// successful preparations first: a parsed game and its archive
-	let game = || peppi::io::slippi::read(Cursor::new(bytes), None).ok();
+	let game = || peppi::io::slippi::read(&mut br(bytes), None).ok();
 	let archive: Vec<u8> = game()
 		.and_then(|g| {
 			let mut p = Vec::new();
@@ -195,19 +199,19 @@ fn error_paths(m: &ModelGame, bytes: &[u8], h: u64) {
 	for k in 0..N {
 		match (k + (h % N as u64) as usize) % N {
 			0 => {
-				let _ = crate::rt::guard(|| peppi::io::slippi::read(Cursor::new(&bytes[..cut_in_start]), Some(&opts)));
+				let _ = crate::rt::guard(|| peppi::io::slippi::read(&mut br(&bytes[..cut_in_start]), Some(&opts)));
 			}
 			1 => {
-				let _ = crate::rt::guard(|| peppi::io::slippi::read(Cursor::new(&bytes[..cut_in_frame]), Some(&opts)));
+				let _ = crate::rt::guard(|| peppi::io::slippi::read(&mut br(&bytes[..cut_in_frame]), Some(&opts)));
 			}
 			2 => {
-				let _ = crate::rt::guard(|| peppi::io::slippi::read(Cursor::new(&bytes[..bytes.len().saturating_sub(2)]), Some(&opts)));
+				let _ = crate::rt::guard(|| peppi::io::slippi::read(&mut br(&bytes[..bytes.len().saturating_sub(2)]), Some(&opts)));
 			}
 			3 => {
 				// an incremental session abandoned in the middle of a frame
 				let _ = crate::rt::guard(|| -> Result<(), String> {
 					use peppi::io::slippi::de;
-					let mut r = Cursor::new(&bytes[..cut_in_frame]);
+					let mut r = br(&bytes[..cut_in_frame]);
 					de::parse_header(&mut r, None).map_err(|e| e.to_string())?;
 					let mut st = de::parse_start(&mut r, None).map_err(|e| e.to_string())?;
 					for _ in 0..(offs.len() / 2 + 1) {
@@ -218,7 +222,7 @@ fn error_paths(m: &ModelGame, bytes: &[u8], h: u64) {
 			}
 			4 => {
 				// metadata nested beyond the limit: refused
-				let _ = crate::rt::guard(|| peppi::io::slippi::read(Cursor::new(&deep[..]), None));
+				let _ = crate::rt::guard(|| peppi::io::slippi::read(&mut br(&deep[..]), None));
 			}
 			5 => {
 				if let Some(g) = game() {
@@ -238,7 +242,7 @@ fn error_paths(m: &ModelGame, bytes: &[u8], h: u64) {
 			7 => {
 				if !archive.is_empty() {
 					let cut = archive.len().saturating_sub(1536 + (h >> 52) as usize % 700);
-					let _ = crate::rt::guard(|| peppi::io::peppi::read(Cursor::new(&archive[..cut]), None));
+					let _ = crate::rt::guard(|| peppi::io::peppi::read(&mut br(&archive[..cut]), None));
 				}
 			}
 			8 => {
@@ -246,7 +250,7 @@ fn error_paths(m: &ModelGame, bytes: &[u8], h: u64) {
 			}
 			9 => {
 				if let Some(c) = cut_in_gecko {
-					let _ = crate::rt::guard(|| peppi::io::slippi::read(Cursor::new(&bytes[..c]), None));
+					let _ = crate::rt::guard(|| peppi::io::slippi::read(&mut br(&bytes[..c]), None));
 				}
 			}
 			_ => {
@@ -264,7 +268,6 @@ fn error_paths(m: &ModelGame, bytes: &[u8], h: u64) {
 /// (`warmup` covers state keyed too narrowly, e.g. a cache that ignores the ports; this covers state
 /// keyed too coarsely, e.g. a table memoised per version that also depends on the game.)
 pub fn sibling_history(m: &ModelGame, bytes: &[u8]) {
-	use std::io::Cursor;
 	static OFF: std::sync::OnceLock<bool> = std::sync::OnceLock::new();
 	let h = crate::rt::hash_bytes(bytes);
 	if h % 16 != 3 || m.version > spec::MAX_VERSION || *OFF.get_or_init(|| std::env::var_os("PV_NO_WARMUP").is_some()) {
@@ -308,13 +311,13 @@ pub fn sibling_history(m: &ModelGame, bytes: &[u8]) {
 	}
 	let sb = raw.serialize();
 	let _ = crate::rt::guard(|| -> Result<(), String> {
-		let g = peppi::io::slippi::read(Cursor::new(&sb[..]), Some(&crate::rt::slp_opts(false, true))).map_err(|e| e.to_string())?;
+		let g = peppi::io::slippi::read(&mut br(&sb[..]), Some(&crate::rt::slp_opts(false, true))).map_err(|e| e.to_string())?;
 		let mut w = Vec::new();
 		let _ = peppi::io::slippi::write(&mut w, &g);
-		let _ = peppi::io::slippi::read(Cursor::new(&sb[..]), Some(&crate::rt::slp_opts(true, true)));
+		let _ = peppi::io::slippi::read(&mut br(&sb[..]), Some(&crate::rt::slp_opts(true, true)));
 		let mut p = Vec::new();
 		let _ = peppi::io::peppi::write(&mut p, g, None);
-		let _ = peppi::io::peppi::read(Cursor::new(&p[..]), None);
+		let _ = peppi::io::peppi::read(&mut br(&p[..]), None);
 		Ok(())
 	});
 	// the failing calls and the near-identical read, either one last (single-entry caches remember the most
@@ -332,7 +335,7 @@ pub fn sibling_history(m: &ModelGame, bytes: &[u8]) {
 				}
 				near.raw_len = None;
 				let nb = near.serialize();
-				let _ = crate::rt::guard(|| peppi::io::slippi::read(Cursor::new(&nb[..]), None));
+				let _ = crate::rt::guard(|| peppi::io::slippi::read(&mut br(&nb[..]), None));
 			}
 		}
 	};
